@@ -694,9 +694,77 @@ def dt_memo_rule(ctx):
     return memo_findings(ctx, "DT-MEMO", "the kept tensor is not converted by .double() / .to(), so a converted model returns results in the dtype of the call that filled the memo")
 
 
+def dt_finfo_rule(ctx):
+    """DT-FINFO.  The float32 model and its .double() twin are the same function evaluated in two precisions.  A
+    constant taken from `torch.finfo(<the dtype of the data>)` -- eps, tiny, min, max -- and used as a *value*
+    (a clamp bound, an offset, a threshold of torch.where) makes them two different functions wherever that
+    constant acts: clipping to [eps, 1 - eps] cuts the logit off at -15.9 in single precision and at -36 in
+    double.  Such a constant may only be compared against (argument validation, a tolerance in a raise guard)."""
+    import ast
+
+    from .shared_rules import _functions, _own_nodes
+
+    p = ctx.p
+    res = RuleResult("DT-FINFO", "no bound / offset / threshold of the computed function is taken from torch.finfo of the data's dtype (the single- and double-precision models would be different functions where it acts); comparisons in guards are allowed")
+    n_fn = n_use = 0
+    for mod, qual, fn, cls in _functions(p):
+        n_fn += 1
+        nodes = _own_nodes(fn)
+        for n in nodes:
+            if not (isinstance(n, ast.Call) and isinstance(n.func, ast.Attribute) and n.func.attr in ("finfo", "iinfo") and isinstance(n.func.value, ast.Name) and n.func.value.id in ("torch", "np", "numpy")):
+                continue
+            if not n.args or not any(isinstance(x, ast.Attribute) and x.attr == "dtype" for x in ast.walk(n.args[0])) and not isinstance(n.args[0], ast.Name):
+                continue  # finfo(torch.float32): one constant for every precision
+            if isinstance(n.args[0], ast.Name):
+                defs = [a.value for a in nodes if isinstance(a, ast.Assign) and any(isinstance(t, ast.Name) and t.id == n.args[0].id for t in a.targets)]
+                if not any(isinstance(x, ast.Attribute) and x.attr == "dtype" for d in defs for x in ast.walk(d)) and defs:
+                    continue
+            n_use += 1
+            # follow the value: finfo(..).eps [-> local name]* -> use
+            frontier, uses, seen = [n], [], set()
+            while frontier:
+                cur = frontier.pop()
+                par = getattr(cur, "_parent", None)
+                while isinstance(par, (ast.Attribute, ast.BinOp, ast.UnaryOp, ast.IfExp, ast.Call)) and not (isinstance(par, ast.Call) and par.func is not cur and not (isinstance(par.func, ast.Name) and par.func.id in ("float", "max", "min", "abs"))):
+                    cur, par = par, getattr(par, "_parent", None)
+                if isinstance(par, ast.Assign) and par.value is cur and all(isinstance(t, ast.Name) for t in par.targets):
+                    for t in par.targets:
+                        if t.id in seen:
+                            continue
+                        seen.add(t.id)
+                        frontier.extend(x for x in nodes if isinstance(x, ast.Name) and x.id == t.id and isinstance(x.ctx, ast.Load))
+                    continue
+                uses.append((cur, par))
+            bad = None
+            for cur, par in uses:
+                q = par
+                in_cmp = False
+                while q is not None and q is not fn:
+                    if isinstance(q, ast.Compare):
+                        in_cmp = True
+                    if isinstance(q, ast.stmt):
+                        break
+                    q = getattr(q, "_parent", None)
+                guard = in_cmp and isinstance(q, (ast.If, ast.Assert, ast.While))
+                if not guard:
+                    bad = (cur, par)
+                    break
+            if bad is None:
+                res.ok("%s: `%s` is only compared against in guards" % (qual, norm_text(n)[:40]))
+                continue
+            st = bad[1]
+            while st is not None and not isinstance(st, ast.stmt):
+                st = getattr(st, "_parent", None)
+            res.fail(Finding("DT-FINFO", mod, qual, st or n, "`%s` enters the computed value (`%s`): the bound depends on the precision the model is run in, so the float32 model and its float64 twin are different functions where it acts (e.g. a clip at machine epsilon: logit cut off at -15.9 in single and at -36.0 in double precision) -- they cannot agree to single-precision accuracy there; use one constant for both precisions" % (norm_text(n)[:50], norm_text(st)[:80] if st is not None else ""), construct="finfo of the data dtype used as a value in %s" % qual))
+    if n_fn < getattr(ctx, "finfo_floor", 300):
+        raise AnalysisIncomplete("DT-FINFO: only %d functions examined" % n_fn)
+    res.ok("%d functions examined, %d reads of finfo(<data dtype>)" % (n_fn, n_use), nontrivial=False)
+    return res
+
+
 register(
     "C19",
-    [c19_rules, logspace_rule, moment_rule, saturate_rule, dt_memo_rule],
+    [c19_rules, logspace_rule, moment_rule, saturate_rule, dt_memo_rule, dt_finfo_rule],
     "NUM-SATURATE: every log / log1p call is examined on the symbolic expansion of its function (helpers inlined): an argument that "
     "is a polynomial in the output of one sigmoid / tanh / softmax call and vanishes at a saturation limit of that call (log(s), "
     "log1p(-s), log(1 - y**2)) is reported unless the squashed value is confined to a two-sided bounded region by a mask -- those "
